@@ -41,7 +41,7 @@ func init() {
 
 func genC12(rt *rapid.T, c *Ctx) C12Case {
 	o := spec.Opts{MinProv: 2, MaxProv: 9, MaxInjectors: 4, MaxFiles: 3, Adversarial: true}
-	o.Allow = spec.AllowAll("variadic")
+	o.Allow = spec.AllowAll()
 	for _, e := range c.KF.Entries {
 		if (e.Property == "C12" || e.Property == "C04") && e.Status == "open" {
 			for _, t := range e.Trigger {
